@@ -290,6 +290,28 @@ def section_solver():
             fail("solver", "second-quantized solver raised", problem=name, error=repr(ex)[:300])
 
 
+def section_sq_finding():
+    """Witness of known finding F-SQ (C07): a number-conserving H_0 whose physical levels are non-degenerate but for which a physical level coincides with an
+    UNPHYSICAL one (negative occupation): H_0 = N + N^2 has E(0) = E(-1).  The solver's coefficient 1/(E(N) - E(N+1)) = -1/(2(N+1)) is shifted by the normal
+    ordering a^dagger g(N) a = N g(N-1) = -N/(2N), which sympy cancels to -1/2: wrong in the vacuum, where a|0> = 0."""
+    global cases
+    from pymablock import block_diagonalize
+    cases += 1
+    a = BosonOp("a")
+    n = NumberOperator(a)
+    Ht, U, Ud = block_diagonalize([sympy.Matrix([[n + n ** 2]]), sympy.Matrix([[a + Dagger(a)]])])
+    rep = Rep([a], D=10)
+    got = _entry_matrix(rep, Ht[0, 0, 2][0, 0])
+    am = np.diag(np.sqrt(np.arange(1, 10)), 1)
+    nm = np.diag(np.arange(10)).astype(float)
+    ref = block_diagonalize([nm + nm @ nm, am + am.T])[0][0, 0, 2]
+    if abs(got[0, 0] - ref[0, 0]) > 1e-9:
+        fail("sq_finding", "second order energy of the vacuum for H_0 = N + N^2, H_1 = a + a^dagger: operator result differs from the matrix result",
+             operator=float(np.real(got[0, 0])), matrix=float(np.real(ref[0, 0])))
+    elif np.abs(np.diag(got)[1:5] - np.diag(ref)[1:5]).max() > 1e-9:
+        fail("sq_finding", "unexpected: excited states differ as well")
+
+
 def section_secondq():
     """C07: operator-valued block_diagonalize against numpy block_diagonalize of the truncated matrices, on Fock states far from the edge."""
     global cases
